@@ -102,6 +102,10 @@ def props_of(finding, trace, sc):
         return {"C20"}
     if base == "work":
         return {"C07"}
+    if base == "an":
+        return {"C16", "C17"}
+    if base == "geo":
+        return {"C17"}
     if base in ("stage", "def"):
         ps = set()
         if mg:
